@@ -804,8 +804,15 @@ func Regex(ctx *context.Context, left, right value.Value) (value.Value, error) {
 }
 
 func matchesAcl(acl value.Acl, ip net.IP) (bool, error) {
+	// The most specific entry (longest prefix) which contains the address decides:
+	// the address matches unless that entry is negated. The order of the entries is irrelevant.
+	matched, negated, longest := false, false, int64(-1)
 	for _, entry := range acl.Value.CIDRs {
+		// An entry without mask is a single host
 		var mask int64 = 32
+		if host := net.ParseIP(entry.IP.Value); host != nil && host.To4() == nil {
+			mask = 128
+		}
 		if entry.Mask != nil {
 			mask = entry.Mask.Value
 		}
@@ -815,13 +822,13 @@ func matchesAcl(acl value.Acl, ip net.IP) (bool, error) {
 		if err != nil {
 			return false, fmt.Errorf("failed to parse CIDR %s", cidr)
 		}
-		if ipnet.Contains(ip) {
-			return true, nil
-		} else if entry.Inverse != nil && entry.Inverse.Value {
-			return true, nil
+		if !ipnet.Contains(ip) || mask <= longest {
+			continue
 		}
+		matched, longest = true, mask
+		negated = entry.Inverse != nil && entry.Inverse.Value
 	}
-	return false, nil
+	return matched && !negated, nil
 }
 
 func NotRegex(ctx *context.Context, left, right value.Value) (value.Value, error) {
